@@ -42,7 +42,13 @@ Inductive op : Type :=
                                executes nothing for it; only the store-semantics spec sees it. *)
 | OTailCall (a lc : Z)      (* callBytecodeFunctionTCO with the fix (opCloseUpvalues(fp) first): a = paramCount+1
                                argument slots on top, lc = vm.localCount of the frame that is being reused *)
-| OTailCallOld (a lc : Z).  (* callBytecodeFunctionTCO as found: the frame is reused without closing *)
+| OTailCallOld (a lc : Z)   (* callBytecodeFunctionTCO as found: the frame is reused without closing *)
+| OUnwind.                  (* Thread.rethrow discarding ONE call frame while an error travels up: restoreLastFrame -
+                               the upvalues at or above the POPPED frame's base are closed, the caller's registers are
+                               restored and the caller's own open upvalues are untouched; whatever lies on top of the
+                               stack lands in the slot where the frame began (the handler pops it).  rethrow repeats
+                               this per frame and then pushes the stack trace and the error in the catching frame
+                               (two OPush). *)
 
 Record st : Type := mkst {
   base : Z;              (* &vm.stack[0] *)
@@ -179,7 +185,33 @@ Definition step (s : st) (o : op) : st :=
         mkst b c (tc_copy m f p a) (p - W * lc) f fr ol' h' n hd k ou
     | OTailCallOld a lc =>
         mkst b c (tc_copy m f p a) (p - W * lc) f fr ol h n hd k ou
+    | OUnwind =>
+        let rv := m (p - W) in
+        let '(h', ol') := close_to f m h ol in
+        mkst b c (updz m f rv) (f + W) (List.hd f fr) (List.tl fr) ol' h' n hd k ou
     end
+  end.
+
+(* error unwinding that restores the caller's registers FIRST and then closes from the (caller's) frame pointer:
+   every open upvalue of the frame the error propagates into is closed although its variables are still in scope *)
+Definition unwind_from_caller (s : st) : st :=
+  match s with
+  | mkst b c m p f fr ol h n hd k ou =>
+      let rv := m (p - W) in
+      let '(h', ol') := close_to (List.hd f fr) m h ol in
+      mkst b c (updz m f rv) (f + W) (List.hd f fr) (List.tl fr) ol' h' n hd k ou
+  end.
+
+Definition step_caller_close (s : st) (o : op) : st :=
+  match o with OUnwind => unwind_from_caller s | _ => step s o end.
+
+Definition run_caller_close (s : st) (t : list op) : st := fold_left step_caller_close t s.
+
+(* a raw ADDRESS of a stack slot taken before a call and written through afterwards (what caching
+   `vm.spAdd(-1)` across CallMethod does): a plain memory write, no rebasing *)
+Definition poke (s : st) (a v : Z) : st :=
+  match s with
+  | mkst b c m p f fr ol h n hd k ou => mkst b c (updz m a v) p f fr ol h n hd k ou
   end.
 
 Definition run (s : st) (t : list op) : st := fold_left step t s.
@@ -265,6 +297,10 @@ Definition sstep (t : sst) (o : op) : sst :=
         (* the old instance keeps its cell (closures holding it keep seeing it); the slot gets a
            fresh cell with the same contents *)
         mksst p f fr (updz sl (f + i) nx) (upd ce nx (ce (sl (f + i)))) (S nx) hd k ou
+    | OUnwind =>
+        (* as a return: the frame's variables die, the slot where the frame began holds a fresh temporary *)
+        mksst (f + 1) (List.hd 0 fr) (List.tl fr) (updz sl f nx) (upd ce nx (ce (sl (p - 1))))
+              (S nx) hd k ou
     | OTailCall a lc | OTailCallOld a lc =>
         (* every variable instance of the frame dies; the a argument values become the fresh
            parameter instances of the callee in slots fp .. fp+a-1 *)
@@ -298,7 +334,8 @@ Definition ok (t : sst) (o : op) : bool :=
   | OGetUp x | OSetUp x _ => (x <? snh t)%nat
   | OClose i => (0 <=? i) && (sfp t + i <=? ssp t)
   | OCall a => (0 <=? a) && (sfp t <=? ssp t - a)
-  | ORet => match sframes t with
+  | ORet | OUnwind =>
+            match sframes t with
             | [] => false
             | g :: _ => (0 <=? g) && (g <=? sfp t) && (sfp t <? ssp t)
             end
